@@ -13,6 +13,13 @@ import (
 func init() {
 	regOp(&Op{Name: "expiry", Impl: func(a map[string]any) any {
 		ss := anyStrs(a["strings"])
+		// the verifier's LOCAL time zone must not matter: the stamp is UTC
+		// (seeded change c06-expiry-parsed-in-local-zone)
+		if z, ok := toInt(a["zone_h"]); ok && z != 0 {
+			old := time.Local
+			time.Local = time.FixedZone("verif", int(z)*3600)
+			defer func() { time.Local = old }()
+		}
 		res := make([]any, len(ss))
 		for i, s := range ss {
 			lay := intoto.Layout{Type: "layout", Expires: s}
@@ -69,7 +76,7 @@ func runC06(r *Runner, tier string, rng *Rng) {
 				s = fmt.Sprintf("%04d-%02d-%02dT%02d:%02d:%02dZ", y, mo, d, rng.Intn(24), rng.Intn(60), rng.Intn(60))
 				r.St.Count("calendar")
 			case 2, 3: // around now (never closer than 10 s, the call itself takes time)
-				offs := []time.Duration{10 * time.Second, time.Minute, time.Hour, 24 * time.Hour, 400 * 24 * time.Hour}
+				offs := []time.Duration{10 * time.Second, time.Minute, time.Hour, 3 * time.Hour, 10 * time.Hour, 24 * time.Hour, 400 * 24 * time.Hour}
 				d := offs[rng.Intn(len(offs))]
 				if rng.Bool() {
 					d = -d
@@ -103,7 +110,8 @@ func runC06(r *Runner, tier string, rng *Rng) {
 			}
 			ss[k] = s
 		}
-		batch = append(batch, Case{Op: "expiry", Args: map[string]any{"strings": ss, "now_ns": int64(0)}, Feat: fmt.Sprintf("b%d", i)})
+		zone := []int{0, 0, -8, 9, -11, 13, 5}[rng.Intn(7)]
+		batch = append(batch, Case{Op: "expiry", Args: map[string]any{"strings": ss, "now_ns": int64(0), "zone_h": zone}, Feat: fmt.Sprintf("b%d", i)})
 		if len(batch) >= 50 {
 			flush()
 		}
@@ -118,5 +126,5 @@ func runC06(r *Runner, tier string, rng *Rng) {
 		flush()
 	}
 	defer runC06Pipeline(r, tier, rng)
-	r.St.Rule = "expiry strings: valid stamps from year 0000 to 9999, stamps 10 s .. 400 days around now on either side, forms Go accepts beyond the layout (1-digit hour, fractional seconds), other date layouts, calendar edge cases, single-character mutations; stamps written 1-2 s ahead of the clock and checked 3.2 s later in the same process (the clock must be read at every check); 16 strings per evaluation; compared: parse verdict (through ValidateMetablock) and VerifyLayoutExpiration verdict against the clock. Class = batch verdict vector."
+	r.St.Rule = "expiry strings: valid stamps from year 0000 to 9999, stamps 10 s .. 400 days around now on either side, forms Go accepts beyond the layout (1-digit hour, fractional seconds), other date layouts, calendar edge cases, single-character mutations; stamps written 1-2 s ahead of the clock and checked 3.2 s later in the same process (the clock must be read at every check); 16 strings per evaluation, evaluated with the process's local time zone set to UTC, UTC-11 .. UTC+13; compared: parse verdict (through ValidateMetablock) and VerifyLayoutExpiration verdict against the clock. Class = batch verdict vector."
 }
